@@ -123,7 +123,7 @@ theorem tok_of_bal (ds : List Char) {cl : Char} {t : Str} (h : Bal cl t) :
     exact Tok.quote a b ha (ihb hcl (fun x hx => hd x (by simp [hx])))
 
 /-- **okValue_of_nested.**  A syntactic sufficient condition for the hypothesis of `arg_format_roundtrip` /
-    `print_parse_args` / `line_roundtrip`: a non-empty value that does not start with a bracket, has no
+    `print_parse_args` / `line_roundtrip_partial`: a non-empty value that does not start with a bracket, has no
     `=`, and whose braces and quotes nest properly (`Bal '}'`), whatever delimiters it contains. -/
 theorem okValue_of_nested (ds : List Char) (hb : ds.contains '{' = false) (hq : ds.contains '"' = false) (v : Str)
     (hne : v ≠ []) (h1 : v.head? ≠ some '{') (h2 : v.head? ≠ some '"') (heq : ∀ c ∈ v, c ≠ '=')
